@@ -288,12 +288,24 @@ class LutRef:
         self.ambiguous[t_idx[amb]] = True
         self.ambiguous[n_idx[amb]] = True
         # flipped triangles (o_t, o_n, u) and (o_t, o_n, v), attached to both members
-        self.alt = {}
+        flipped = []
+        owners = {}
         for tt, nn, ot, on, uu, vv in zip(t_idx[amb], n_idx[amb], o_t[amb], o_n[amb],
                                           u[amb], v[amb]):
-            for owner in (int(tt), int(nn)):
-                self.alt.setdefault(owner, []).extend([(int(ot), int(on), int(uu)),
-                                                       (int(ot), int(on), int(vv))])
+            for third in (uu, vv):
+                flipped.append((int(ot), int(on), int(third)))
+                for owner in (int(tt), int(nn)):
+                    owners.setdefault(owner, []).append(len(flipped) - 1)
+        self.alt = owners                      # triangle -> indices into the flipped list
+        self.alt_index = np.full((len(s), 6), -1, dtype=np.int64)
+        for owner, lst in owners.items():
+            self.alt_index[owner, :len(lst[:6])] = lst[:6]
+        fl = np.array(flipped, dtype=np.int64).reshape(-1, 3)
+        self.f_pa, self.f_pb, self.f_pc = pts[fl[:, 0]], pts[fl[:, 1]], pts[fl[:, 2]]
+        self.f_va = self.values[fl[:, 0]]
+        self.f_gx, self.f_gy, self.f_det = self._affine(
+            self.f_pa, self.f_pb, self.f_pc, self.values[fl[:, 0]], self.values[fl[:, 1]],
+            self.values[fl[:, 2]])
 
     def _node_slack(self):
         """Largest |gradient|_1 of the triangles incident to each node."""
@@ -339,25 +351,21 @@ class LutRef:
         best = int(np.argmax(worst))
         return cand, best, float(worst[best])
 
-    def alt_values(self, tidx, p):
-        """Values at p of the flipped-diagonal triangles of ambiguous triangle tidx
-        that contain p (within BAND)."""
-        out = []
-        for (i, j, k) in self.alt.get(int(tidx), ()):
-            pa, pb, pc = self.nodes[[i]], self.nodes[[j]], self.nodes[[k]]
-            va, vb, vc = self.values[[i]], self.values[[j]], self.values[[k]]
-            gx, gy, det = self._affine(pa, pb, pc, va, vb, vc)
-            if not np.isfinite(gx[0]) or det[0] == 0:
-                continue
-            wb = ((p[0] - pa[0, 0]) * (pc[0, 1] - pa[0, 1])
-                  - (p[1] - pa[0, 1]) * (pc[0, 0] - pa[0, 0])) / det[0]
-            wc = ((pb[0, 0] - pa[0, 0]) * (p[1] - pa[0, 1])
-                  - (pb[0, 1] - pa[0, 1]) * (p[0] - pa[0, 0])) / det[0]
-            if min(1 - wb - wc, wb, wc) < -1e-6:
-                continue
-            val = va[0] + gx[0] * (p[0] - pa[0, 0]) + gy[0] * (p[1] - pa[0, 1])
-            out.append((float(val), float(abs(gx[0]) + abs(gy[0]))))
-        return out
+    def flipped_plane(self, fidx, pts):
+        """Value, containment (min barycentric weight) and |gradient|_1 of flipped
+        triangles fidx at pts (vectorised)."""
+        pa, pb, pc = self.f_pa[fidx], self.f_pb[fidx], self.f_pc[fidx]
+        det = self.f_det[fidx]
+        with np.errstate(divide="ignore", invalid="ignore"):
+            wb = ((pts[:, 0] - pa[:, 0]) * (pc[:, 1] - pa[:, 1])
+                  - (pts[:, 1] - pa[:, 1]) * (pc[:, 0] - pa[:, 0])) / det
+            wc = ((pb[:, 0] - pa[:, 0]) * (pts[:, 1] - pa[:, 1])
+                  - (pb[:, 1] - pa[:, 1]) * (pts[:, 0] - pa[:, 0])) / det
+            wmin = np.minimum(np.minimum(1.0 - wb - wc, wb), wc)
+            val = self.f_va[fidx] + self.f_gx[fidx] * (pts[:, 0] - pa[:, 0]) \
+                + self.f_gy[fidx] * (pts[:, 1] - pa[:, 1])
+        g1 = np.abs(self.f_gx[fidx]) + np.abs(self.f_gy[fidx])
+        return val, wmin, g1
 
     def evaluate(self, xn, yn):
         """Reference interpolant at normalised points.
@@ -378,6 +386,7 @@ class LutRef:
         ref = np.full(n, np.nan)
         grad1 = np.zeros(n)
         located_by = np.zeros(n, dtype=np.int8)   # 1 hint, 2 brute force
+        edge_dist = np.full(n, np.nan)            # distance to the nearest edge of `tri`
         if fin.any():
             idx = np.nonzero(fin)[0]
             hd[idx] = self.hull_distance(pts[idx])
@@ -400,11 +409,14 @@ class LutRef:
             if have.any():
                 ref[have] = self.plane(tri[have], pts[have])
                 grad1[have] = self.grad1[tri[have]]
+                edge_dist[have] = (self.bary(tri[have], pts[have])
+                                   * self.heights[tri[have]]).min(axis=1)
         cls = np.where(~fin, 3, np.where(hd > BAND, 2, np.where(hd < -BAND, 0, 1)))
         amb = np.zeros(n, dtype=bool)
         amb[tri >= 0] = self.ambiguous[tri[tri >= 0]]
         return {"ref": ref, "tri": tri, "hd": hd, "grad1": grad1, "cls": cls,
-                "ambiguous": amb, "pts": pts, "located_by": located_by}
+                "ambiguous": amb, "pts": pts, "located_by": located_by,
+                "edge_dist": edge_dist}
 
     # ................................................................. judge
     def judge(self, xn, yn, got, scale, rtol=RTOL):
@@ -440,11 +452,43 @@ class LutRef:
             bad = cmp_ & ~(np.abs(got - ref) <= tol)
         verdict[cmp_ & ~bad] = 0
         ev["err"] = np.where(cmp_, np.abs(got - ref) / np.maximum(np.abs(ref), 1e-300), 0.0)
-        # slow path for the (rare) mismatches: neighbouring triangles / flipped diagonals
-        for i in np.nonzero(bad)[0][:self.SLOW_PATH_CAP]:
+        # mismatches, step 1 (vectorised): the three neighbouring triangles (point on an
+        # edge / vertex) and the flipped diagonals of ambiguous pairs
+        bi = np.nonzero(bad)[0]
+        if bi.size:
+            verdict[bi] = -1
+            t0 = ev["tri"][bi]
+            pp = ev["pts"][bi]
+            for k in range(3):
+                nbk = self.neigh[t0, k]
+                okk = nbk >= 0
+                nb_safe = np.where(okk, nbk, 0)
+                val = self.plane(nb_safe, pp) * scale[bi]
+                tl = rtol * np.abs(val) + POS_DELTA * self.grad1[nb_safe] * np.abs(scale[bi])
+                w = self.bary(nb_safe, pp)
+                with np.errstate(invalid="ignore"):
+                    near = (w * self.heights[nb_safe]).min(axis=1) >= -BAND
+                    hit = okk & near & (np.abs(got[bi] - val) <= tl) & (verdict[bi] == -1)
+                verdict[bi[hit]] = 3
+            for k in range(6):
+                fk = self.alt_index[t0, k]
+                okk = fk >= 0
+                if not okk.any():
+                    continue
+                f_safe = np.where(okk, fk, 0)
+                val, wmin, g1 = self.flipped_plane(f_safe, pp)
+                val = val * scale[bi]
+                tl = rtol * np.abs(val) + POS_DELTA * g1 * np.abs(scale[bi])
+                with np.errstate(invalid="ignore"):
+                    hit = okk & (wmin >= -1e-6) & (np.abs(got[bi] - val) <= tl) \
+                        & (verdict[bi] == -1)
+                verdict[bi[hit]] = 4
+        # step 2 (brute force, capped): any triangle whose BAND-neighbourhood contains
+        # the point, and the flipped diagonals attached to those
+        left = bi[verdict[bi] == -1] if bi.size else bi
+        for i in left[:self.SLOW_PATH_CAP]:
             p = ev["pts"][i]
             cand, _, _ = self.near_triangles(p)
-            verdict[i] = -1
             for t in cand:
                 val = float(self.plane(np.array([t]), p[None, :])[0]) * scale[i]
                 tl = rtol * abs(val) + POS_DELTA * self.grad1[t] * abs(scale[i])
@@ -452,17 +496,16 @@ class LutRef:
                     verdict[i] = 3
                     break
             if verdict[i] == -1:
-                for t in set(cand.tolist()) | {int(ev["tri"][i])}:
-                    for val, g1 in self.alt_values(t, p):
-                        val *= scale[i]
-                        tl = rtol * abs(val) + POS_DELTA * g1 * abs(scale[i])
-                        if abs(got[i] - val) <= tl:
+                fl = sorted({f for t in cand for f in self.alt.get(int(t), ())})
+                if fl:
+                    fl = np.array(fl)
+                    val, wmin, g1 = self.flipped_plane(fl, np.repeat(p[None, :], len(fl), 0))
+                    val = val * scale[i]
+                    tl = rtol * np.abs(val) + POS_DELTA * g1 * abs(scale[i])
+                    with np.errstate(invalid="ignore"):
+                        if ((wmin >= -1e-6) & (np.abs(got[i] - val) <= tl)).any():
                             verdict[i] = 4
-                            break
-                    if verdict[i] == 4:
-                        break
-        for i in np.nonzero(bad)[0][self.SLOW_PATH_CAP:]:
-            verdict[i] = -1
+        ev["n_slow"] = int(min(len(left), self.SLOW_PATH_CAP))
         ev["expected"] = ref
         ev["tol"] = tol
         return ev, verdict
